@@ -117,10 +117,10 @@ impl Pacer {
             Bandwidth::new(1_200_000 / 8, Duration::from_secs(1));
 
         let floor = if self.pacing_rate < SEND_QUANTUM_THRESHOLD {
-            max_datagram_size
+            max_datagram_size as usize
         } else {
-            max_datagram_size * 2
-        } as usize;
+            max_datagram_size as usize * 2
+        };
 
         let send_quantum = (self.pacing_rate * Duration::from_millis(1)) as usize;
         self.send_quantum = send_quantum
